@@ -14,7 +14,10 @@ use std::path::Path;
 // i.e. an inner node with one more child would still fit without the extra pointer (capacity arithmetic classes)
 /// (1000 and 2000: three / one header per leaf, five / three children per inner node - trees of five to seven node levels
 /// are reached with a few hundred to two thousand headers)
-pub const PROBE_KEYLENS: &[usize] = &[1, 2, 3, 4, 5, 6, 7, 8, 16, 33, 48, 65, 71, 100, 138, 284, 400, 576, 1000, 2000];
+/// (2040 and 4000: one header per leaf and TWO children per inner node - the smallest fan-out there is; nodes with a single
+/// child and no key arise whenever a tree layer has an odd number of nodes. 4039 is the largest key whose record header
+/// still fits a block; longer keys are outside what the index format can hold and are not probed)
+pub const PROBE_KEYLENS: &[usize] = &[1, 2, 3, 4, 5, 6, 7, 8, 16, 33, 48, 65, 71, 100, 138, 284, 400, 576, 1000, 2000, 2040, 4000];
 const BLOCK: usize = 4096;
 
 pub fn per_block(keylen: usize) -> usize {
@@ -54,6 +57,8 @@ fn key_bytes(keylen: usize, prefix: u8, counter: u32) -> Vec<u8> {
 fn max_keys(keylen: usize) -> usize {
     match keylen {
         1 => 120,
+        // (one header per leaf and fan-out 2: 600 keys are ten node levels already)
+        2040 | 4000 => 600,
         _ => 3000,
     }
 }
@@ -446,7 +451,7 @@ pub fn run_idx(c: &IdxCase, dir: &Path) -> Result<CaseOut, Failure> {
             n => fail("index/unsupported-keylen", format!("rev order {}", n)),
         };
     }
-    go!(1, 2, 3, 4, 5, 6, 7, 8, 16, 33, 48, 65, 71, 100, 138, 284, 400, 576, 1000, 2000)
+    go!(1, 2, 3, 4, 5, 6, 7, 8, 16, 33, 48, 65, 71, 100, 138, 284, 400, 576, 1000, 2000, 2040, 4000)
 }
 
 fn sample(c: &IdxCase) -> Value {
